@@ -191,6 +191,10 @@ def run_case(ctx, seed, idx):
             first_touch = first_touch[n_early:]
 
             def early_init(self_, path, _early=early, _attr=d.attr):
+                # (upstream's own tests read a property "prior to object construction": it reads as None)
+                unset = getattr(self_, _attr[_early[0][0]])
+                if unset is not None:
+                    raise AssertionError('a property never assigned reads %r before construction' % (unset,))
                 for key_, v_ in _early:
                     setattr(self_, _attr[key_], v_)
                 O.DBusObject.__init__(self_, path)
